@@ -35,7 +35,7 @@ type vkStmt struct {
 
 func TestVerifC05DistributedQuery(t *testing.T) {
 	stats := verifkit.For("C05", "TestVerifC05DistributedQuery",
-		"bed K (1 meta + 3 data nodes behind TLV-aware fault proxies): per case a fresh database with RF 1..3 and 2..6 hourly shard groups is loaded with uniquely tagged points, a statement (count/sum/raw select on float and unsigned fields, SHOW MEASUREMENTS/TAG KEYS/TAG VALUES/FIELD KEYS/SERIES) is run fault-free on a generated coordinator (R0, cross-checked against what was written) and again under a generated fault set per remote node (refuse, cut response after n bytes, shards disabled = error reply at request time, short/long delay); the faulty result must equal R0 or be an error, and must equal R0 when every shard keeps an owner that answers. non-trivial = a faulty node was actually asked to serve a request of the query; distinct = hash of (rf, groups, coordinator, statement kind, fault kinds, outcome)")
+		"bed K (1 meta + 3 data nodes behind TLV-aware fault proxies): per case a fresh database with RF 1..3 and 2..6 hourly shard groups is loaded with uniquely tagged points, optionally a twin measurement, a replication factor altered part-way, and the coordinating node stripped of its copies through remove-shard; a statement (count/sum/raw select on float and unsigned fields with one or two sources or sub-queries, SELECT *, time bounds on shard-group starts, SHOW MEASUREMENTS/TAG KEYS/TAG VALUES/FIELD KEYS/SERIES, storage ReadFilter over the whole range or up to a group start; every case writes one field name no other case uses) is run fault-free on a generated coordinator (R0, cross-checked against what was written) and again under a generated fault set per remote node (refuse, cut response after n bytes, shards disabled = error reply at request time, short/long delay); the faulty result must equal R0 or be an error, and must equal R0 when every shard keeps an owner that answers. non-trivial = a faulty node was actually asked to serve a request of the query; distinct = hash of (rf, groups, coordinator, statement kind, fault kinds, outcome)")
 	defer stats.Flush()
 	cl, err := vkSharedCluster()
 	if err != nil {
